@@ -70,6 +70,9 @@ func (s *ServerLedActivationToken) Store(ctx context.Context, storage nodeenroll
 		if err != nil {
 			return fmt.Errorf("(%s) error marshaling wrapped creation time: %w", op, err)
 		}
+		// The creation time is now carried by the wrapped value; do not also
+		// store it in the clear (it is restored from the wrapped value on load)
+		tokenToStore.CreationTime = nil
 	}
 
 	if err := storage.Store(ctx, tokenToStore); err != nil {
